@@ -104,6 +104,18 @@ Theorem C14_update_exact : forall O c syms targets m k,
 Proof. exact update_exact. Qed.
 Print Assumptions C14_update_exact.
 
+(* ... so every function whose last matching pattern is a -P, that is big enough and starts with a NOP
+   form has `call trampoline` at its entry afterwards (together with C14_unselected_untouched:
+   exactly those) *)
+Theorem C14_selected_gets_call : forall O c syms targets m k s,
+  disjoint_fps (visited c syms targets) -> In s (visited c syms targets) ->
+  spec_decision O c s = 1%Z -> patchable c m s = true ->
+  rel32 (c_tramp c) (entry_of m (s_addr s)) <> 0%Z ->
+  rd (fst (patch_func_matched O c syms targets (m, k))) (entry_of m (s_addr s)) 5
+  = call_insn (c_tramp c) (entry_of m (s_addr s)).
+Proof. exact selected_gets_call. Qed.
+Print Assumptions C14_selected_gets_call.
+
 (* functions that are not selected are byte-for-byte untouched *)
 Theorem C14_unselected_untouched : forall O c syms targets m k,
   disjoint_fps (visited c syms targets) ->
